@@ -28,10 +28,13 @@ Definition bytes_ok (data : list Z) : Prop := Forall (fun b => 0 <= b < 256) dat
 
 Definition s_end (s : sigl) : Z := s_start s + s_size s.
 
-(* well-formed layout of `size` bits: sorted, pairwise disjoint, inside the payload, sizes 1..64,
+(* well-formed layout of `size` bits: sorted, pairwise disjoint, inside the payload, sizes >= 1,
    distinct ids *)
 Definition sig_ok (size : Z) (s : sigl) : Prop :=
-  0 <= s_start s /\ 1 <= s_size s <= 64 /\ s_end s <= size.
+  0 <= s_start s /\ 1 <= s_size s /\ s_end s <= size.
+(* a raw value is a uint64: the decoding theorems are about signals of at most 64 bits.  A
+   multiplexer signal (never decoded) may be wider; it does not void the layout's well-formedness *)
+Definition narrow (s : sigl) : Prop := s_size s <= 64.
 Fixpoint sorted (l : list sigl) : Prop :=
   match l with
   | [] => True
